@@ -118,8 +118,10 @@ class RefFit(object):
         dx = np.where(dx == 0, 1e-2 * (np.abs(self.x) + 1.0 / (1.0 + np.abs(self.x))), dx)
         f1 = np.abs(self.slope(p))
         f3 = np.abs(np.asarray(self.d3model_dx3(self.x, *p), dtype=float))
+        fv = np.abs(np.asarray(self.model(p), dtype=float))
         with np.errstate(all="ignore"):
-            rel = np.where(f1 > 0, f3 * dx**2 / 6.0 / f1, 0.0)
+            # truncation error of the central difference + its rounding error (matters for tiny steps)
+            rel = np.where(f1 > 0, f3 * dx**2 / 6.0 / f1 + 4e-16 * (fv + f1 * dx) / (dx * f1), 0.0)
         self._eps_vec = rel
         return float(np.max(rel)) if rel.size else 0.0
 
